@@ -155,7 +155,11 @@ def _compare(res, rec, got, tag, keep_chain, overflow, check_chain=True):
         bad("ins_code", f"insertion code {got.get('icode')!r} != {rec['ins_code']!r}")
     for k in "xyz":
         if abs(got[k] - rec[k]) > 0.00051:
-            bad(k, f"{k} {got[k]} != {rec[k]}")
+            if "coordinate" in overflow and abs(got[k] - rec[k]) > 0.11:
+                # the known overflow only cuts trailing decimals (precision); anything else is a wrong number
+                res.bad(f"C08:{tag}:coordinate-corrupted", f"{k} {got[k]} != {rec[k]}: more than the trailing decimals of an over-wide value are lost")
+            else:
+                bad(k, f"{k} {got[k]} != {rec[k]}")
     if abs(got["q"] - rec["q"]) > 0.000051:
         bad("charge", f"charge {got['q']} != {rec['q']}")
     if abs(got["r"] - rec["r"]) > 0.000051:
